@@ -6,6 +6,7 @@ import (
 	"bytes"
 	"encoding/json"
 	"fmt"
+	"strings"
 
 	"os"
 	"path/filepath"
@@ -219,8 +220,8 @@ func c01Handlers(c *ev.Ctx, k c01Case) {
 	firstAccept := -1
 	for i, h := range k.Handlers {
 		switch h {
-		case "A", "R":
-			s := &stubHandler{name: fmt.Sprintf("stub%d", i), accept: h == "A", log: &e.log, script: map[string]string{}}
+		case "A", "R", "Rplain", "Rwrapped", "Rvalue":
+			s := &stubHandler{name: fmt.Sprintf("stub%d", i), accept: h == "A", log: &e.log, script: map[string]string{"reject": strings.ToLower(strings.TrimPrefix(h, "R"))}}
 			stubs = append(stubs, s)
 			hs = append(hs, s)
 			if h == "A" && firstAccept < 0 {
@@ -350,7 +351,7 @@ func c01Rotation(c *ev.Ctx, k c01Case) {
 
 func checkC01(c *ev.Ctx) {
 	defer cleanupScratch()
-	c.Rule("real gensign.Run + regular.Handler (built by NewHandler from a JSON config) over a scripted forwarded agent and a recording CA: single runs = full product login{alice,bob,ünï} x policy{NONS,NSOK} x hard-key x params{set,nil} x client claim{self,mallory} x key directory{none,.pub,bare,both,unparsable,other user,directory,another user's key} x agent{honest with key, without, signs with another key, signs other data, garbage, empty, failure, close}; handler lists = every list of length 0..3 over {accepting stub, rejecting stub, real handler} x real handler ok/not; run sequences of length 2 (thorough 3) over {honest, replay, other data, failure}, and key-rotation sequences (registered key file replaced in place between runs; old key must be refused by the long-lived and by a fresh handler, new key accepted). Oracle: independent proof-of-possession predicate; challenge = bytes drawn from the csprng seam in this run. non-trivial = run with a valid proof of possession or a handler list; distinct by case")
+	c.Rule("real gensign.Run + regular.Handler (built by NewHandler from a JSON config) over a scripted forwarded agent and a recording CA: single runs = full product login{alice,bob,ünï} x policy{NONS,NSOK} x hard-key x params{set,nil} x client claim{self,mallory} x key directory{none,.pub,bare,both,unparsable,other user,directory,another user's key} x agent{honest with key, without, signs with another key, signs other data, garbage, empty, failure, close}; handler lists = every list of length 0..3 over {accepting stub, rejecting stub (typed error; in the first two positions also plain, wrapped and by-value errors), real handler} x real handler ok/not; run sequences of length 2 (thorough 3) over {honest, replay, other data, failure}, and key-rotation sequences (registered key file replaced in place between runs; old key must be refused by the long-lived and by a fresh handler, new key accepted). Oracle: independent proof-of-possession predicate; challenge = bytes drawn from the csprng seam in this run. non-trivial = run with a valid proof of possession or a handler list; distinct by case")
 	c.Assume("statistical quality of the OS CSPRNG is trusted; 'fresh' is decided as 'the 64 bytes drawn from crypto/rand during this Authenticate call'", "key files are looked up as '<name>.pub' then '<name>' (documented order)")
 	if c.ReplayCase != nil {
 		var k c01Case
@@ -404,7 +405,10 @@ func checkC01(c *ev.Ctx) {
 		if d == 3 {
 			return
 		}
-		for _, h := range []string{"A", "R", "real"} {
+		for _, h := range []string{"A", "R", "real", "Rplain", "Rvalue", "Rwrapped"} {
+			if d >= 2 && len(h) > 1 && h != "real" {
+				continue // the untyped-rejection stubs in the first two positions only (keeps the list count at 172)
+			}
 			rec(append(pre, h), d+1)
 		}
 	}
